@@ -16,24 +16,33 @@ Definition acc_inv (s : astate) : Prop :=
 Lemma a_inv_init : acc_inv a_init.
 Proof. repeat split; cbn; try discriminate; intros; discriminate. Qed.
 
+(* the two states every refusal / implicit context ends in *)
+Lemma inv_closed d vl : acc_inv (mkAS RB false HClosed d false false vl).
+Proof. repeat split; cbn; intros; try discriminate. Qed.
+Lemma inv_fresh d vl : acc_inv (mkAS RB false HNone d false false vl).
+Proof. repeat split; cbn; intros; try discriminate. Qed.
+
 Lemma a_inv_step s c : acc_inv s -> a_enabled s c = true -> acc_inv (snd (a_step s c)).
 Proof.
-  intros [H1 [H2 [H3 H4]]] He. destruct s as [m i h d ga gw]. cbn in *.
-  destruct c as [| | | |k v|r|]; cbn in *.
-  7: { repeat split; intros; try discriminate. }
-  - repeat split; try tauto; intros; try discriminate; try (now apply H2); try (now apply H3); now apply H4.
-  - subst. repeat split; intros; try discriminate; try tauto.
+  intros [H1 [H2 [H3 H4]]] He. destruct s as [m i h d ga gw vl]. cbn in *.
+  destruct c as [| | | |k v|r| | |]; cbn in *.
+  - (* allow_write *) repeat split; try tauto; intros; try discriminate; try (now apply H2); try (now apply H3); now apply H4.
+  - (* enter *) subst. unfold try_enter. cbn. destruct vl; cbn; [|apply inv_closed].
+    repeat split; cbn; intros; try discriminate; try tauto.
     + inversion H. subst. tauto.
     + now exists m.
-  - repeat split; intros; try discriminate. 
-  - repeat split; intros; try discriminate.
-  - destruct k; destruct i, m; cbn; try destruct h as [|[]|]; try destruct v; cbn;
+  - apply inv_closed.
+  - apply inv_closed.
+  - (* mutators *) destruct k; destruct i, m; cbn; try destruct h as [|[]|]; try destruct v; cbn;
       repeat split; intros; try discriminate; try tauto;
       try (exfalso; destruct (H4 eq_refl) as [_ Hx]; now eapply Hx).
-  - destruct r; [|repeat split; tauto|].
-    + destruct i; cbn; [repeat split; tauto|]. repeat split; intros; try discriminate.
+  - (* readers *) destruct r; [|repeat split; tauto|].
+    + destruct i; cbn; [repeat split; tauto|]. apply inv_closed.
     + destruct h as [|hm|]; cbn; try (repeat split; tauto);
-        destruct i; cbn; try (repeat split; tauto); repeat split; intros; try discriminate.
+        destruct i; cbn; try (repeat split; tauto); apply inv_closed.
+  - (* clobber *) subst. repeat split; cbn; intros; try discriminate; try tauto; now apply H4.
+  - (* restore *) subst. repeat split; cbn; intros; try discriminate; try tauto; now apply H4.
+  - apply inv_fresh.
 Qed.
 
 Lemma a_inv_run cs : forall s, acc_inv s -> a_trace_ok s cs = true -> acc_inv (a_run s cs).
@@ -51,8 +60,9 @@ Theorem C08_only_in_write_context : forall cs c s,
 Proof.
   intros cs c s Ht -> He Hd.
   pose proof (a_inv_run cs a_init a_inv_init Ht) as [H1 [H2 [H3 H4]]].
-  set (s := a_run a_init cs) in *. destruct s as [m i h d ga gw]. cbn in *.
-  destruct c as [| | | |k v|r|]; cbn in Hd; try congruence.
+  set (s := a_run a_init cs) in *. destruct s as [m i h d ga gw vl]. cbn in *.
+  destruct c as [| | | |k v|r| | |]; cbn in Hd; try congruence.
+  - unfold try_enter in Hd. destruct vl; cbn in Hd; congruence.
   - destruct k; destruct i, m; cbn in Hd; try congruence;
       destruct h as [|[]|]; cbn in Hd; try congruence; destruct v; cbn in Hd; try congruence;
       (split; [eexists; reflexivity|]); repeat split; tauto.
@@ -72,7 +82,7 @@ Theorem C08_refused_elsewhere : forall cs s k v,
 Proof.
   intros cs s k v Ht -> Hn.
   pose proof (a_inv_run cs a_init a_inv_init Ht) as [H1 [H2 [H3 H4]]].
-  set (s := a_run a_init cs) in *. destruct s as [m i h d ga gw]. cbn in *.
+  set (s := a_run a_init cs) in *. destruct s as [m i h d ga gw vl]. cbn in *.
   destruct k; destruct i, m; cbn; try (split; reflexivity);
     destruct h as [|[]|]; cbn; try (split; reflexivity);
     exfalso; apply Hn; split; try reflexivity; now apply H2.
@@ -84,7 +94,7 @@ Theorem C08_allowed_in_write_context : forall s k,
   x_inside s = true -> x_mode s = RWB -> x_handle s = HOpen RWB ->
   fst (a_step s (Mutator k true)) = false /\ x_disk (snd (a_step s (Mutator k true))) = x_disk s + 1.
 Proof.
-  intros [m i h d ga gw] k Hi Hm Hh. cbn in *. subst. destruct k; cbn; split; reflexivity.
+  intros [m i h d ga gw vl] k Hi Hm Hh. cbn in *. subst. destruct k; cbn; split; reflexivity.
 Qed.
 Print Assumptions C08_allowed_in_write_context.
 
@@ -92,7 +102,8 @@ Print Assumptions C08_allowed_in_write_context.
 Theorem C08_readers_pure : forall s c,
   (forall k v, c <> Mutator k v) -> x_disk (snd (a_step s c)) = x_disk s.
 Proof.
-  intros [m i h d ga gw] c Hc. destruct c as [| | | |k v|r|]; cbn; try reflexivity.
+  intros [m i h d ga gw vl] c Hc. destruct c as [| | | |k v|r| | |]; cbn; try reflexivity.
+  - unfold try_enter. cbn. destruct vl; reflexivity.
   - exfalso. now apply (Hc k v).
   - destruct r; [destruct i| |destruct h; try destruct i]; reflexivity.
 Qed.
@@ -109,7 +120,7 @@ Print Assumptions C08_mode_reset.
 Theorem C08_reentry_is_read_only : forall s c k v, c = ExitNormal \/ c = ExitExn ->
   let s' := snd (a_step (snd (a_step s c)) Enter) in
   fst (a_step s' (Mutator k v)) = true /\ x_disk (snd (a_step s' (Mutator k v))) = x_disk s'.
-Proof. intros s c k v [-> | ->]; destruct k; cbn; split; reflexivity. Qed.
+Proof. intros [m i h d ga gw vl] c k v [-> | ->]; destruct k, vl; cbn; split; reflexivity. Qed.
 Print Assumptions C08_reentry_is_read_only.
 
 (* the object copy() returns carries no write permission, whatever the state of the object it was taken from: a
@@ -119,7 +130,7 @@ Theorem C08_copy_is_read_only : forall s k v,
   let c1 := snd (a_step c0 Enter) in
   (fst (a_step c0 (Mutator k v)) = true /\ x_disk (snd (a_step c0 (Mutator k v))) = x_disk s) /\
   (fst (a_step c1 (Mutator k v)) = true /\ x_disk (snd (a_step c1 (Mutator k v))) = x_disk s).
-Proof. intros s k v. destruct k; cbn; repeat split; reflexivity. Qed.
+Proof. intros [m i h d ga gw vl] k v. destruct k, vl; cbn; repeat split; reflexivity. Qed.
 Print Assumptions C08_copy_is_read_only.
 
 (* every handle opened implicitly is closed again *)
@@ -129,7 +140,7 @@ Theorem C08_implicit_closed : forall cs s r,
 Proof.
   intros cs s r Ht -> Hi m.
   pose proof (a_inv_run cs a_init a_inv_init Ht) as [H1 [H2 [H3 H4]]].
-  set (s := a_run a_init cs) in *. destruct s as [md i h d ga gw]. cbn in *. subst i.
+  set (s := a_run a_init cs) in *. destruct s as [md i h d ga gw vl]. cbn in *. subst i.
   destruct r; cbn; [discriminate|now apply H4|].
   destruct h as [|hm|]; cbn; discriminate.
 Qed.
@@ -187,7 +198,7 @@ Proof.
   - destruct (Access.a_step (ss_acc s) (Mutator k (request_ok (ss_file s) o))) as [raised a'] eqn:E.
     destruct raised; cbn [snd ss_file] in Hd; [congruence|].
     split; [now exists k, o|].
-    destruct Ha as [H1 [H2 [H3 H4]]]. destruct (ss_acc s) as [m i h d ga gw]. cbn in *.
+    destruct Ha as [H1 [H2 [H3 H4]]]. destruct (ss_acc s) as [m i h d ga gw vl]. cbn in *.
     destruct k; destruct i, m; cbn in E; try (inversion E; fail);
       destruct h as [|[]|]; cbn in E; try (inversion E; fail);
       try (destruct (request_ok (ss_file s) o); inversion E; fail);
